@@ -27,6 +27,7 @@ def run(ck, ctx):
     ck.nd("values 'reachable by local operations' are not modelled: the certificate quantifies over all field values")
     ck.assume("two stamps that are equal under the total order carry equal payloads (stamps are unique per replica: C08)")
     tree = A.load(FILES)
+    _TREE["t"] = tree
     ck.configs.append("source")
     ck.fn_count += len(tree["fns"])
     fns = {(f["owner"].split("<")[0].strip(), f["name"]): f for f in tree["fns"] if not f["trait"]}
@@ -431,8 +432,68 @@ def _replicated_value(f):
     return "{%s}" % ", ".join(parts), issues
 
 
+_TREE = {"t": None}
+
+
+def _optlift_helper(e, name):
+    """the same lift written once as a generic helper: `helper(&self.f, &other.f, |a, b| a.op(b))` where
+    `fn helper(l: &Option<T>, r: &Option<T>, join: impl FnOnce(&T, &T) -> T) -> Option<T>` has the canonical four-case match
+    with `Some(join(l, r))` in the (Some, Some) arm.  Returns the operator applied by the closure, or None if e is not that form."""
+    e = strip(e)
+    if e.get("k") != "Call" or len(e.get("args", [])) != 3 or e["f"].get("k") != "Path":
+        return None
+    hname = e["f"]["p"].rsplit("::", 1)[-1]
+    tree = _TREE["t"] or {"fns": []}
+    hs = [g for g in tree["fns"] if g["name"] == hname and not g["owner"]]
+    if len(hs) != 1:
+        return None
+    h = hs[0]
+    expect(len(h["params"]) == 3, "helper %s must take (left, right, join)" % hname, e)
+    pl, pr, pj = [p["n"] for p in h["params"]]
+    hb = tail(body_stmts(h))
+    expect(len(body_stmts(h)) == 1 and hb.get("k") == "Match" and hb["e"].get("k") == "Tuple" and
+           [acc(x) for x in hb["e"]["elems"]] == [(pl, ()), (pr, ())], "helper %s: body must be `match (left, right)`" % hname, h["body"])
+    kinds = set()
+    for arm in hb["arms"]:
+        p = arm["pat"]
+        pats = p["cases"] if p["k"] == "POr" else [p]
+        for q in pats:
+            expect(q["k"] == "PTuple" and len(q["elems"]) == 2, "helper %s: arm pattern must be a pair" % hname, arm)
+            kinds.add(tuple("S" if x["k"] == "PTupleStruct" and x["p"] == "Some" else "N" for x in q["elems"]))
+        body = A.simplify(arm["body"])
+        sig0 = tuple("S" if x["k"] == "PTupleStruct" and x["p"] == "Some" else "N" for x in pats[0]["elems"])
+        if sig0 == ("S", "S"):
+            x, y = pats[0]["elems"][0]["elems"][0].get("n"), pats[0]["elems"][1]["elems"][0].get("n")
+            okb = body.get("k") == "Call" and acc(body["f"]) == ("Some", ()) and body["args"][0].get("k") == "Call" and \
+                acc(body["args"][0]["f"]) == (pj, ()) and [acc(z) for z in body["args"][0]["args"]] == [(x, ()), (y, ())]
+            expect(okb, "helper %s: the (Some, Some) arm must be Some(join(l, r))" % hname, arm)
+        elif sig0 == ("N", "N"):
+            expect(acc(body) == ("None", ()), "helper %s: (None, None) arm must be None" % hname, arm)
+        else:
+            expect(body.get("k") == "Call" and acc(body["f"]) == ("Some", ()), "helper %s: one-sided arm must keep the present value" % hname, arm)
+    expect(kinds == {("S", "S"), ("S", "N"), ("N", "S"), ("N", "N")}, "helper %s: the four Option cases are not all covered" % hname, h["body"])
+    # the call: mirrored fields and a closure that applies one method to both values
+    a, b = acc(e["args"][0]), acc(e["args"][1])
+    expect(a == ("self", (name,)) and b == ("other", (name,)), "field %s: %s must be given (&self.%s, &other.%s), found %s/%s" % (name, hname, name, name, a, b), e)
+    clo = strip(e["args"][2])
+    expect(clo.get("k") == "Closure" and len(clo.get("params", [])) == 2, "field %s: third argument of %s must be a two-parameter closure" % (name, hname), e)
+    cx, cy = [pname(p) for p in clo["params"]]
+    cb = clo["body"]
+    if cb.get("k") == "Block":
+        expect(len(cb["stmts"]) == 1, "field %s: closure body must be one expression" % name, clo)
+        cb = cb["stmts"][0].get("e") or cb["stmts"][0]
+    cb = strip(cb)
+    expect(cb.get("k") == "MethodCall" and len(cb.get("args", [])) == 1, "field %s: closure must be |a, b| a.op(b)" % name, clo)
+    ra, rb = acc(cb["recv"]), acc(cb["args"][0])
+    expect({ra, rb} == {(cx, ()), (cy, ())}, "field %s: the closure must combine both values" % name, clo)
+    return cb["m"]
+
+
 def _optlift(e, name):
     """match (self.f, other.f) { (Some(a), Some(b)) => Some(a.op(b)), (Some(x), None) | (None, Some(x)) => Some(x[.clone()]), (None, None) => None }"""
+    viah = _optlift_helper(e, name)
+    if viah is not None:
+        return viah
     expect(e.get("k") == "Match" and e["e"].get("k") == "Tuple" and len(e["e"]["elems"]) == 2, "field %s: expected match (self.%s, other.%s)" % (name, name, name), e)
     a, b = acc(e["e"]["elems"][0]), acc(e["e"]["elems"][1])
     expect(a == ("self", (name,)) and b == ("other", (name,)), "field %s: scrutinee must be (self.%s, other.%s), found %s/%s" % (name, name, name, a, b), e)
